@@ -2,7 +2,7 @@
    Property theorems only (kernel level: the fixed-length path shared by hit and miss). *)
 From Coq Require Import String.
 From Coq Require Import List NArith ZArith Bool.
-From Verif Require Import GoStr GoNum Range SpecC15 C15Proofs.
+From Verif Require Import GoStr GoNum Range SpecC15 C15Proofs C15Parse.
 Import ListNotations.
 Open Scope Z_scope.
 
@@ -25,6 +25,23 @@ Theorem C15_every_answer_acceptable :
     exists a, range_answer (to_rr r) resource = Some a /\ answer_ok r resource a = true.
 Proof. exact range_answer_ok. Qed.
 Print Assumptions C15_every_answer_acceptable.
+
+(* From header bytes: every Range header of the strict single-range grammar (bytes=a-b,
+   bytes=a-, bytes=-s; decimal digits of any number, leading zeros included) is read by the
+   code's parser as the range it denotes - strings.Split on "bytes=" and "-", ParseInt and
+   the sign trick for suffixes all included - and that range is well formed. *)
+Theorem C15_parser_reads_the_grammar :
+  forall h r, spec_parse_range h = Some r -> get_range h = Some (to_rr r) /\ wellformed r.
+Proof. exact get_range_meets_grammar. Qed.
+Print Assumptions C15_parser_reads_the_grammar.
+
+(* ... and so, for every such header and every resource, what the client receives is the
+   exact 206, the complete 200, or a 416 for a range not wholly inside. *)
+Theorem C15_header_to_answer :
+  forall h r resource, spec_parse_range h = Some r ->
+    exists rr a, get_range h = Some rr /\ range_answer rr resource = Some a /\ answer_ok r resource a = true.
+Proof. exact header_answer_ok. Qed.
+Print Assumptions C15_header_to_answer.
 
 (* tests (not theorems): getRange on the three canonical spellings *)
 Example C15_parse_samples :
